@@ -446,6 +446,23 @@ fn c16_subs<B: Fld>(run: &Arc<Run>) -> Vec<Arc<dyn Sub>> {
                     out.violation(format!("{}: BoundaryConstraints accepts an assertion that does not fit the trace ({what})", B::NAME), json!({}));
                 }
             }
+            // multi-segment traces (2 main + 2 auxiliary columns): an assertion is checked against the width of ITS
+            // segment - every column 0..=5 as a main and as an auxiliary assertion, single / periodic / sequence
+            let mk = ctx_multi::<B>(n);
+            for col in 0..6usize {
+                let kinds: Vec<(&str, Assertion<B>)> = vec![("single", Assertion::single(col, 1, v)), ("periodic", Assertion::periodic(col, 1, 4, v)), ("sequence", Assertion::sequence(col, 0, 4, vec![v, v + v, v, v + v]))];
+                for (kname, a) in kinds {
+                    let legal = col < 2;
+                    let main_ok = pan::catch(|| BoundaryConstraints::<B>::new(&mk(1, 1), vec![a.clone()], vec![Assertion::single(0, 0, v)], &[v, v])).is_ok();
+                    if main_ok != legal {
+                        out.violation(format!("{}: a main-segment assertion is {} against the width of the main segment", B::NAME, if legal { "refused although its column exists" } else { "accepted although its column does not exist" }), json!({"column": col, "main_width": 2, "aux_width": 2, "kind": kname}));
+                    }
+                    let aux_ok = pan::catch(|| BoundaryConstraints::<B>::new(&mk(1, 1), vec![Assertion::single(0, 0, v)], vec![a.clone()], &[v, v])).is_ok();
+                    if aux_ok != legal {
+                        out.violation(format!("{}: an auxiliary-segment assertion is {} against the width of the auxiliary segment", B::NAME, if legal { "refused although its column exists" } else { "accepted although its column does not exist" }), json!({"column": col, "main_width": 2, "aux_width": 2, "kind": kname}));
+                    }
+                }
+            }
             if Assertion::single(0, 0, v).validate_trace_length(12).is_ok() {
                 out.violation(format!("{}: a trace length that is not a power of two is accepted", B::NAME), json!({}));
             }
@@ -460,7 +477,7 @@ fn main() {
     match args.prop.clone().as_str() {
         "C16" => {
             let run = Run::new(args, "exploration");
-            run.rule("for trace lengths 8..64 (..256 thorough) and all three base fields: every exemption count 1..=n/2+1 (divisor = (x^n-1)/prod over the last e points as data, equal to prod over the non-exempt points at n+1 off-domain points, i.e. as a polynomial; exemption bounds 0..n/2+3 accepted exactly when legal); every assertion valid for the length (single at every step, periodic for every stride and first step, sequence for every stride and first step): divisor zero set over all n domain points == named steps, value polynomial reproduces every asserted value at its step and is the low-degree interpolant, apply()/get_num_steps; every ordered pair of assertions on one column: overlaps_with <=> step sets intersect and (n <= 32) BoundaryConstraints::new refuses exactly then; ill-formed assertions are refused; distinct by enumeration index");
+            run.rule("for trace lengths 8..64 (..256 thorough) and all three base fields: every exemption count 1..=n/2+1 (divisor = (x^n-1)/prod over the last e points as data, equal to prod over the non-exempt points at n+1 off-domain points, i.e. as a polynomial; exemption bounds 0..n/2+3 accepted exactly when legal); every assertion valid for the length (single at every step, periodic for every stride and first step, sequence for every stride and first step): divisor zero set over all n domain points == named steps, value polynomial reproduces every asserted value at its step and is the low-degree interpolant, apply()/get_num_steps; every ordered pair of assertions on one column: overlaps_with <=> step sets intersect and (n <= 32) BoundaryConstraints::new refuses exactly then; ill-formed assertions are refused (illegal strides / first steps / value counts / lengths; every column 0..5 as a main and as an auxiliary assertion of a 2+2-column trace is accepted exactly when it exists in its own segment); distinct by enumeration index");
             run.assume("trace-domain generator = the library's root of unity (C07); reference arithmetic as in C07");
             let mut subs = vec![];
             subs.extend(c16_subs::<B64>(&run));
